@@ -363,6 +363,7 @@ def verify_contract(cdef: ContractDef, timeout_ms=10000, want_smt2=1, stop_on_re
         interp = Interp()
         interp_box["i"] = interp
         tz.LAYOUT_FREE[0] = False
+        tz.LOG_DEFINEDNESS[0] = False
         case = Case(cdef, ex, interp, ex.npaths)
         try:
             cdef.fn(case)
